@@ -13,6 +13,7 @@ Result dict: status in ok|violation|skip; for violations 'invariant', 'detail',
 """
 import concurrent.futures
 import faulthandler
+import gc
 import json
 import multiprocessing
 import os
@@ -51,11 +52,17 @@ def safe_execute(mod, pl, timeout_s=60):
     """Run one plan with the real-time backstop.  Harness exceptions propagate."""
     old = signal.signal(signal.SIGALRM, _alarm)
     signal.alarm(timeout_s)
+    # The cyclic collector runs at allocation-count thresholds that depend on what the
+    # process did before; finalising a leftover suspended decoder generator in the
+    # middle of a run would execute pyasn1 lines at an arbitrary point (and, under the
+    # thread scheduler, count as scheduling steps).  Collect between runs only.
+    gc.disable()
     try:
         return mod.execute(pl)
     finally:
         signal.alarm(0)
         signal.signal(signal.SIGALRM, old)
+        gc.collect()
 
 
 def _merge_counters(dst, src):
